@@ -279,6 +279,9 @@ def check_case(case):
         out.append(v)
 
     bait_df = pd.DataFrame([tuple(b) for b in case["baits"]], columns=["chromosome", "start", "end", "gene"])
+    from vk import gen
+
+    bait_df = gen.relabel(bait_df, gen.spec_for(case))
     bait_arr = GA(bait_df.copy())
     nonempty = [b for b in case["baits"] if b[2] > b[1]]
     d = tempfile.mkdtemp(prefix="vk12.")
